@@ -45,7 +45,10 @@ const (
 	metaID    = "id"  // piece identity: "r<k>" for the k-th record read, children "r<k>.<i>"
 	metaMatch = "m"   // "1" = the condition matches
 	metaOut   = "out" // index of the plugin result this record was produced for
-	condTmpl  = `{{ eq (index .Metadata "m") "1" }}`
+	metaCond  = "c"   // condJunk = the condition of a conditional processor fails to evaluate for this record
+	condJunk  = "junk"
+	// the condition renders "true"/"false" from m, or something that is not a boolean
+	condTmpl = `{{ if eq (index .Metadata "c") "junk" }}notabool{{ else }}{{ eq (index .Metadata "m") "1" }}{{ end }}`
 )
 
 var errRejected = errors.New("p09: processor rejects the record")
